@@ -263,6 +263,16 @@ def oracle(c, r):
                 yield ("remove-nan", "has_nan() = %r with NaN ordinates at %r" % (rm["has_nan"], na))
             if list(zip(rm["out"]["x"], rm["out"]["y"])) != want:
                 yield ("remove-nan", "remove_nan on xs=%r ys=%r with NaN at %r gave %r, the finite pairs are %r" % (xs, ys, na, list(zip(rm["out"]["x"], rm["out"]["y"])), want))
+    ex = pj(r.get("extremes"))
+    if ex is not None:
+        want = {"x_min": xs[0], "x_max": xs[-1], "y_min": min(ys), "y_max": max(ys), "ordered": len(set(xs)) == len(xs), "npoints": len(xs), "interval": [xs[0], xs[-1]]}
+        for key, w in want.items():
+            if ex[key] != w:
+                yield ("series-extremes", "%s = %r on xs=%r ys=%r, expected %r" % (key, ex[key], xs, ys, w))
+                break
+        else:
+            if ex["gmax"][1] != max(ys) or ex["gmin"][1] != min(ys) or ys[xs.index(ex["gmax"][0])] != max(ys) and ex["gmax"][0] not in [x for x, y in zip(xs, ys) if y == max(ys)] or ex["gmin"][0] not in [x for x, y in zip(xs, ys) if y == min(ys)]:
+                yield ("series-extremes", "global maximum %r / minimum %r on xs=%r ys=%r" % (ex["gmax"], ex["gmin"], xs, ys))
     for nm in ("abs", "dydx"):
         v = pj(r.get(nm))
         if v is not None:
